@@ -48,6 +48,11 @@ def gen_make(rng):
             top = [[0, 14]] + ([[2, 12]] if rng.random() < 0.5 else [])
             a = dict(t="dgm", bars=top + rand_bars(rng, 2, 12, rng.randint(1, 2)))
             b = dict(t="dgm", bars=top + rand_bars(rng, 2, 12, rng.randint(1, 2)))
+        elif rng.random() < 0.2:
+            # Q = P plus later bars, to the right of everything in P: the knots of P's depth functions are a proper prefix of Q's
+            b = dict(t="dgm", bars=[list(x) for x in a["bars"]] + rand_bars(rng, 16, 26, rng.randint(1, 2)))
+            if rng.random() < 0.5:
+                a, b = b, a
         else:
             b = dict(t="dgm", bars=rand_bars(rng, 0, 14, rng.randint(1, 4))) if rng.random() < 0.8 else dict(t="cp", cps=rand_cp(rng, 0, 8))
         if k == "sub":
@@ -173,6 +178,11 @@ def gen_session(rng):
     if rng.random() < 0.5:
         a = dict(t="dgm", bars=rand_bars(rng, 0, 14, rng.randint(1, 4)))
         b = dict(t="dgm", bars=rand_bars(rng, 0, 14, rng.randint(1, 4)))
+        if rng.random() < 0.3:
+            # Q = P plus later bars to the right of everything in P (the knots of P's depth functions are a proper prefix of Q's), or the other way round
+            b = dict(t="dgm", bars=[list(x) for x in a["bars"]] + rand_bars(rng, 16, 26, rng.randint(1, 2)))
+            if rng.random() < 0.5:
+                a, b = b, a
     else:
         s = rng.choice([1, 2]); n = rng.randint(4, 9); a0 = rng.choice([0, 2])
         def g():
